@@ -1127,6 +1127,12 @@ impl TransactionalMemory {
         Ok(())
     }
 
+    // Writes every buffered page out and syncs the file, without touching the commit slots
+    pub(crate) fn flush_buffered_pages(&self) -> Result {
+        self.debug_assert_no_dirty_pages();
+        self.storage.flush()
+    }
+
     // Make changes visible, without a durability guarantee. `newly_unpersisted` is the set of
     // pages allocated by this transaction; they become part of the unpersisted-page tracking so
     // they can be reclaimed if a subsequent durable commit fails.
